@@ -188,7 +188,7 @@ func payload(rt *rapid.T, n int) []byte { return gen.ProfilePayload(rt, "icc", n
 
 func genPNG(rt *rapid.T, maxICC int) Case {
 	pair := rapid.SampledFrom(build.LegalPNG).Draw(rt, "pngtype")
-	p := build.PNG{ColorType: pair[0], Depth: pair[1], W: uint32(rapid.IntRange(1, 70000).Draw(rt, "w")), H: uint32(rapid.IntRange(1, 70000).Draw(rt, "h"))}
+	p := build.PNG{ColorType: pair[0], Depth: pair[1], W: uint32(rapid.IntRange(1, 70000).Draw(rt, "w")), H: uint32(rapid.IntRange(1, 70000).Draw(rt, "h")), Interlace: byte(rapid.IntRange(0, 1).Draw(rt, "interlace"))}
 	c := Case{Format: "PNG", W: p.W, H: p.H, Bits: uint32(p.Depth)}
 	class := rapid.SampledFrom([]string{"intact", "intact", "intact", "none", "corrupt-deflate"}).Draw(rt, "class")
 	c.Class = class
@@ -373,7 +373,7 @@ func genJPEG(rt *rapid.T, maxICC int, exhaustPerm []int) Case {
 	c := Case{Format: "JPEG", Bits: 8}
 	h, w := uint16(rapid.IntRange(1, 65535).Draw(rt, "h")), uint16(rapid.IntRange(1, 65535).Draw(rt, "w"))
 	c.W, c.H = uint32(w), uint32(h)
-	sofSeg := build.Seg{Marker: byte(rapid.SampledFrom([]int{0xC0, 0xC2}).Draw(rt, "sof")), Data: build.SOF(8, h, w, [][3]byte{{1, 0x22, 0}, {2, 0x11, 1}, {3, 0x11, 1}})}
+	sofSeg := build.Seg{Marker: byte(rapid.SampledFrom([]int{0xC0, 0xC2}).Draw(rt, "sof")), Data: build.SOF(8, h, w, rapid.SampledFrom([][][3]byte{{{1, 0x22, 0}, {2, 0x11, 1}, {3, 0x11, 1}}, {{1, 0x11, 0}}, {{1, 0x11, 0}, {2, 0x11, 1}, {3, 0x11, 1}, {4, 0x11, 0}}, {{'R', 0x11, 0}, {'G', 0x11, 0}, {'B', 0x11, 0}}, {{1, 0x21, 0}, {2, 0x11, 1}, {3, 0x11, 1}}}).Draw(rt, "components"))}
 	class := rapid.SampledFrom([]string{"intact", "intact", "intact", "none", "missing-chunk", "bad-number", "inconsistent-total"}).Draw(rt, "class")
 	if exhaustPerm != nil {
 		class = "intact"
